@@ -99,3 +99,52 @@ func VerifKindNames(ks []int) []string {
 	}
 	return out
 }
+
+func verifSigEq(a, b Sig) bool {
+	return a.Method == b.Method && a.Class == b.Class && a.Frame == b.Frame && a.IsStatic == b.IsStatic && a.Detail == b.Detail
+}
+
+// VerifSortedSigs: C05 kernel. TSignatures holds n entries whose Method / Class / Frame /
+// IsStatic / Detail are solver variables over two-element domains (pairwise distinct, as the
+// key construction in appendSignature guarantees); the iteration order of the map is a
+// schedule variable at every range statement. The sorted listing produced under two
+// independently chosen iteration orders must be identical. which: 0 GetSortedTSignatures,
+// 1 GetSortedTSignaturesByClass.
+func VerifSortedSigs(n int) {
+	which := verifapi.Concrete(verifapi.Int("which", 0, 1))
+	TSignatures = map[string]Sig{}
+	var sigs []Sig
+	keys := []string{"k0", "k1", "k2", "k3"}
+	for i := 0; i < n; i++ {
+		s := Sig{
+			Method:   verifapi.Pick(verifapi.Int("method", 0, 1), "ma", "mb"),
+			Class:    verifapi.Pick(verifapi.Int("class", 0, 1), "Ka", "Kb"),
+			Frame:    verifapi.Pick(verifapi.Int("frame", 0, 1), "", "Fr"),
+			IsStatic: verifapi.Bool("static"),
+			Detail:   verifapi.Pick(verifapi.Int("detail", 0, 1), "d1", "d2"),
+		}
+		for _, o := range sigs {
+			verifapi.Assume(!verifSigEq(s, o))
+		}
+		sigs = append(sigs, s)
+		TSignatures[keys[i]] = s
+	}
+	verifapi.AnyOrder(TSignatures)
+	var a, b []Sig
+	if which == 0 {
+		a, b = GetSortedTSignatures(), GetSortedTSignatures()
+	} else {
+		a, b = GetSortedTSignaturesByClass(), GetSortedTSignaturesByClass()
+	}
+	verifapi.Reach("sorted")
+	same := len(a) == len(b)
+	for i := range a {
+		if i < len(b) && !verifSigEq(a[i], b[i]) {
+			same = false
+		}
+	}
+	// what ties: entries equal in the sort key but different in what is printed
+	tie := "entries-differ-only-in-IsStatic-or-Detail"
+	verifapi.Classify("C05/sorted-listing-depends-on-map-iteration-order/" + []string{"GetSortedTSignatures", "GetSortedTSignaturesByClass"}[which] + "/" + tie)
+	verifapi.Assert(same, "C05-sorted")
+}
